@@ -627,6 +627,9 @@ func buildSeqs() []*mc.Seq {
 			Panics: []string{"C13"},
 		})
 	}
+	// The same kind of sequences through the FUSE front end, issued by a
+	// kernel model with protocol-accurate lookup counts (fuse_test.go).
+	r = append(r, fuseSeq())
 	for _, cfg := range seqCfgs {
 		cfg := cfg
 		r = append(r, &mc.Seq{
